@@ -781,7 +781,7 @@ def gen_src(unit_name):
 GEN_SRC = {n: gen_src(n) for n in ("SrcKmpLps", "SrcShiftAndMasks", "SrcHorspoolNew", "SrcFenwick", "SrcBitEnc", "SrcBwt", "SrcPrescan")}
 
 # genfm: the FM-index chain (C04/C05) — added separately so that concurrent edits of the line above merge trivially
-GEN_SRC.update({n: gen_src(n) for n in ("SrcOcc", "SrcLess", "SrcBackwardSearch")})
+GEN_SRC.update({n: gen_src(n) for n in ("SrcOcc", "SrcLess", "SrcBackwardSearch", "SrcSampledGet")})
 
 
 # ------------------------------------------------------------------------------------------ theorem modules built here
@@ -861,6 +861,7 @@ SOFT_OCC = soft_modules(["RbV.Thm.GenSrcOccModel"], "the mirror model `occGet` n
                         "branch by branch (the property-level theorem `occ_get_source_exact` is checked separately)")
 EXTRACTORS["C04"] = EXTRACTORS["C04"] + [GEN_SRC["SrcOcc"], SOFT_OCC, GEN_SRC["SrcLess"]]
 EXTRACTORS["C05"] = EXTRACTORS.get("C05", []) + [gen_occ, GEN_SRC["SrcOcc"], GEN_SRC["SrcBackwardSearch"]]
+EXTRACTORS["C03"] = EXTRACTORS["C03"] + [GEN_SRC["SrcSampledGet"], GEN_SRC["SrcOcc"]]
 
 
 def main():
